@@ -46,6 +46,15 @@ def bsPost (s : St) : Nat → Nat → Int → St
   | 2, pos, _ => flipAt s pos
   | _, _, _ => s
 
+/-- the integral value of a bitset, bit 0 first ([bitset.members] to_ulong / to_ullong: "the integral value corresponding
+    to the bits in `*this`") -/
+def bitsVal : List Int → Nat
+  | [] => 0
+  | b :: bs => (if b ≠ 0 then 1 else 0) + 2 * bitsVal bs
+
+/-- documented precondition of the storage's `unsafe_set_size(newSize)`: zero storage "can only be changed to 0" -/
+def setSizeOk (st : Stor) (s : St) (n : Nat) : Bool := match st with | .zero => decide (n = 0) | _ => decide (n ≤ s.cap)
+
 def doc (cfg : Cfg) (s : St) : Op → Doc
   | .svAt i => ⟨[(kIndex, i < s.size)], fun _ => elemAt s.elems i, fun _ => s⟩
   | .svFront => ⟨[(kIndex, 0 < s.size)], fun _ => elemAt s.elems 0, fun _ => s⟩
@@ -71,12 +80,16 @@ def doc (cfg : Cfg) (s : St) : Op → Doc
   | .svCtorNV _ n v => ⟨[(kCtorN 1, n ≤ s.cap)], fun _ => [], fun _ => withElems s (List.replicate n v)⟩
   | .svCtorRng _ xs o => ⟨[(kCtorOrd, o), (kCtorFit, xs.length ≤ s.cap)], fun _ => [], fun _ => withElems s xs⟩
   | .svClear _ => ⟨[], fun _ => [], fun _ => withElems s []⟩
-  | .ivFront k => ⟨[(IV.kFront k, s.size ≠ 0)], fun _ => elemAt s.elems 0, fun _ => s⟩
-  | .ivBack k => ⟨[(IV.kBack k, s.size ≠ 0)], fun _ => lastOf s.elems, fun _ => s⟩
-  | .ivAt k i => ⟨[(IV.kAt k, i < s.size)], fun _ => elemAt s.elems i, fun _ => s⟩
-  | .ivEmplaceBack v => ⟨[(IV.kEmplace, s.size < s.cap)], fun _ => [v], fun _ => withElems s (s.elems ++ [v])⟩
-  | .ivPush k v => ⟨[(IV.kPush k, s.size < s.cap)], fun _ => [v], fun _ => withElems s (s.elems ++ [v])⟩
-  | .ivPop => ⟨[(IV.kPop, s.size ≠ 0)], fun _ => [], fun _ => withElems s s.elems.dropLast⟩
+  -- inplace_vector<T, 0> is always empty and always full: every such call violates the precondition; its members are those
+  -- of a separate specialisation, so the reporting site is the `false` check there
+  | .ivFront k => ⟨if s.cap = 0 then [(IV.kFrontZ k, false)] else [(IV.kFront k, s.size ≠ 0)], fun _ => elemAt s.elems 0, fun _ => s⟩
+  | .ivBack k => ⟨if s.cap = 0 then [(IV.kBackZ k, false)] else [(IV.kBack k, s.size ≠ 0)], fun _ => lastOf s.elems, fun _ => s⟩
+  | .ivAt k i => ⟨if s.cap = 0 then [(IV.kAtZ k, false)] else [(IV.kAt k, i < s.size)], fun _ => elemAt s.elems i, fun _ => s⟩
+  | .ivEmplaceBack v =>
+    ⟨if s.cap = 0 then [(IV.kEmplaceZ, false)] else [(IV.kEmplace, s.size < s.cap)], fun _ => [v], fun _ => withElems s (s.elems ++ [v])⟩
+  | .ivPush k v =>
+    ⟨if s.cap = 0 then [(IV.kPushZ k, false)] else [(IV.kPush k, s.size < s.cap)], fun _ => [v], fun _ => withElems s (s.elems ++ [v])⟩
+  | .ivPop => ⟨if s.cap = 0 then [(IV.kPopZ, false)] else [(IV.kPop, s.size ≠ 0)], fun _ => [], fun _ => withElems s s.elems.dropLast⟩
   | .vwAt i => ⟨[(VW.kAt, i < s.size)], fun _ => elemAt s.elems i, fun _ => s⟩
   | .vwFront => ⟨[(VW.kFront, s.size ≠ 0)], fun _ => elemAt s.elems 0, fun _ => s⟩
   | .vwBack => ⟨[(VW.kBack, s.size ≠ 0)], fun _ => lastOf s.elems, fun _ => s⟩
@@ -137,6 +150,18 @@ def doc (cfg : Cfg) (s : St) : Op → Doc
   | .bb which pos v => ⟨[(bbKey which, pos < s.size)], fun _ => bbResult s which pos, fun _ => bbPost s which pos v⟩
   | .bs which pos v => ⟨[(bsKey which, pos < s.size)], fun _ => bsResult s which pos, fun _ => bsPost s which pos v⟩
   | .bsCtor pos n bits => ⟨[(BS.kCtor, pos ≤ s.size)], fun _ => ((s.elems.drop pos).take n).take bits, fun _ => s⟩
+  -- [bitset.members]: to_ulong / to_ullong throw overflow_error exactly when the value cannot be represented in the result type
+  | .bsToU digits => ⟨[(BS.kToU, decide (bitsVal s.elems < 2 ^ digits))], fun _ =>
+     [((bitsVal s.elems % 4294967296 : Nat) : Int), ((bitsVal s.elems / 4294967296 : Nat) : Int)], fun _ => s⟩
+  -- the public member move_insert(position, first, last): a valid position, a valid pointer pair, room for the range
+  | .svMoveInsert _ p xs o =>
+    ⟨posClauses s p ++ [(kPair, o), (kMoveIns, decide (s.size + xs.length ≤ s.cap))], fun _ => [p], fun _ => withElems s (insertAt s.elems p.toNat xs)⟩
+  -- the "unsafe" members behind the public ones ("\warning No elements are constructed or destroyed"): the new size is at most the capacity
+  | .svUnsafeSetSize st n => ⟨[(kStSet st, setSizeOk st s n)], fun _ => [], fun _ => withElems s (s.elems.take n)⟩
+  | .svUnsafeDestroy f l =>
+    ⟨[(kNtDestroyF, decide (0 ≤ f ∧ f ≤ s.size)), (kNtDestroyL, decide (0 ≤ l ∧ l ≤ s.size))], fun _ => [], fun _ => s⟩
+  | .ivUnsafeSetSize n => ⟨[(IV.kSet, n ≤ s.cap)], fun _ => [], fun _ => withElems s (s.elems.take n)⟩
+  | .strUnsafeSetSize n => ⟨[(STR.kSet, n ≤ s.cap)], fun _ => [], fun _ => withElems s (s.elems.take n)⟩
   | .bit which w pos => ⟨[(SC.kBit (SC.bitFns.getD which "test_bit") (if which == 3 then 1 else 0), pos < w)], fun _ => [], fun _ => s⟩
   -- [numeric.sat]: `y != 0`; the mathematical quotient (truncated), saturated to the range of `int`
   | .divSat x y => ⟨[(SC.kDiv, y ≠ 0)], fun _ => [max SC.I32min (min SC.I32max (Int.tdiv x y))], fun _ => s⟩
